@@ -1,17 +1,18 @@
 #!/bin/bash
-# usage: store_seed.sh <prop> <name>   — confirm /tmp/r7/<prop>/out as seeded/<name>, write meta.json, drop the worktree
-prop=$1; name=$2
+# usage: [ROUND=8] store_seed.sh <prop> <name>   — confirm /tmp/r$ROUND/<prop>/out as seeded/<name>, write meta.json, drop the worktree
+prop=$1; name=$2; export ROUND=${ROUND:-8}
+base=/tmp/r$ROUND/$prop
 mkdir -p /tmp/seed/${prop}-scratch
-/verif/tools/confirm_seed.sh $name /tmp/r7/$prop/out/patch.diff /tmp/r7/$prop/out/demo $prop 2>&1 | tail -1 | tee /tmp/r7/$prop/confirm.txt
-if grep -q "^CONFIRMED" /tmp/r7/$prop/confirm.txt; then
-python3 - "$prop" "$name" <<'PY'
-import json, sys
-prop, name = sys.argv[1:3]
-notes = json.load(open('/tmp/r7/%s/out/notes.json' % prop))
+/verif/tools/confirm_seed.sh $name $base/out/patch.diff $base/out/demo $prop 2>&1 | tail -1 | tee $base/confirm.txt
+if grep -q "^CONFIRMED" $base/confirm.txt; then
+python3 - "$prop" "$name" "$base" <<'PY'
+import json, sys, os
+prop, name, base = sys.argv[1:4]
+notes = json.load(open(base + '/out/notes.json'))
 m = {"id": name, "property": prop, "summary": notes["summary"], "needs": notes["needs"],
      "ran": "tools/confirm_seed.sh: go build ./... and go test -count=1 ./... pass with the change; demo/run.sh exits non-zero with it and 0 without (see confirm.log)",
-     "origin": "round 7: independent sub-agent given only the property text and a scratch worktree"}
+     "origin": "round %s: independent sub-agent given only the property text and a scratch worktree" % os.environ["ROUND"]}
 json.dump(m, open('/verif/seeded/%s/meta.json' % name, 'w'), indent=1)
 PY
-git -C /repo worktree remove --force /tmp/r7/$prop/wt 2>/dev/null
+git -C /repo worktree remove --force $base/wt 2>/dev/null
 fi
